@@ -390,6 +390,13 @@ def extra_obligations(mods, tier, seed):
     return out
 
 
+ALT_LITERAL_PROBES = {
+    ("LCD", "write", "align"): ('"right"', "right"), ("LCD", "line", "align"): ('"center"', "center"),
+    ("LCD", "message", "top_align"): ('"right"', "right"), ("LCD", "message", "bottom_align"): ('"center"', "center"),
+    ("LCD", "progress", "style"): ('"block"', "block"), ("LCD", "animate", "animation"): ('"scroll"', "scroll"),
+    ("LCD", "glyph", "bitmap"): ("[8, 7, 6, 5, 4, 3, 2, 1]", [8, 7, 6, 5, 4, 3, 2, 1]),
+    ("Led", "flash_pattern", "pattern"): ("[0, 1, 1, 0]", [0, 1, 1, 0]), ("Buzzer", "melody", "name"): ('"error"', "error"),
+}
 FLOAT_PROBE = {"speed": 0.625, "value": 0.625, "target_speed": 0.375, "pulse": 1062.5, "min_pulse_us": 612.5, "max_pulse_us": 2312.5}
 
 
@@ -436,6 +443,66 @@ def spacing_and_literal_obligations(P):
             out.append({"name": f"C08/{label}/keyword-spacing", "status": "discharged" if not fails else "sat", "backend": "enum",
                         "where": f"{label}: blanks around `=` of keyword arguments do not change the IR", "time": round(time.time() - t0, 3),
                         "replay": {"examples": fails[:3]}, "replay_confirmed": bool(fails)})
+        # ---- (a2) two calls of the same method in one block do not share argument state: each IR node carries its own call's arguments
+        if kind == "stmt":
+            t0 = time.time()
+            req = [p for p in params if p.default is inspect._empty] + [p for p in params if p.default is not inspect._empty][:2]
+
+            def args_for(tag, alt):
+                out_args, bound = [], {}
+                for p in req:
+                    lit = LITERAL_PROBES.get((cls, meth, p.name))
+                    if lit:
+                        text, val = (ALT_LITERAL_PROBES.get((cls, meth, p.name)) or lit) if alt else lit
+                    else:
+                        text = val = f"{tag}{names.index(p.name)}v"
+                    bound[p.name] = val
+                    out_args.append(text if p.kind == p.POSITIONAL_ONLY else f"{p.name}={text}")
+                return ", ".join(out_args), bound
+            a_txt, a_b = args_for("zq", False)
+            b_txt, b_b = args_for("yq", True)
+            src2 = base_src + f"while True:\n    dev.{meth}({a_txt})\n    dev.{meth}({b_txt})\n"
+            fails = []
+            try:
+                prog = P.parse(src2)
+                nodes2 = [n for n in prog.loop_body if dataclasses.is_dataclass(n) and type(n).__name__ not in ("ButtonPoll", "LCDTick")]
+                if len(nodes2) != 2:
+                    fails.append({"script": src2[-200:], "problem": f"{len(nodes2)} IR nodes for two calls"})
+                else:
+                    for node2, bnd, which in ((nodes2[0], a_b, "first"), (nodes2[1], b_b, "second")):
+                        fields = {f.name: getattr(node2, f.name) for f in dataclasses.fields(node2)}
+                        for pn, exp in bnd.items():
+                            fname = FIELD_OF.get((cls, meth, pn), pn)
+                            if fname in fields and not same_value(fields[fname], exp):
+                                fails.append({"call": which, "problem": f"{type(node2).__name__}.{fname} = {fields[fname]!r}, this call passes {pn} = {exp!r}"})
+            except (ValueError, SyntaxError):
+                pass
+            except Exception as ex:
+                fails.append({"problem": f"{type(ex).__name__}: {ex}"})
+            out.append({"name": f"C08/{label}/two-calls-in-one-block", "status": "discharged" if not fails else "sat", "backend": "enum",
+                        "where": f"{label}: two calls with different arguments in one block give two IR nodes, each with its own arguments", "time": round(time.time() - t0, 3),
+                        "replay": {"examples": fails[:3], "script": src2[-260:]}, "replay_confirmed": bool(fails)})
+            # ---- (a3) an explicit None for a parameter whose default is None binds like the omitted argument (or is rejected)
+            t0 = time.time()
+            fails = []
+            for p in params:
+                if p.default is not None or p.kind == p.POSITIONAL_ONLY:
+                    continue
+                others = [q for q in params if q is not p and q.default is inspect._empty]
+                base_args = []
+                for q in others:
+                    v = LITERAL_PROBES.get((cls, meth, q.name), (None,))[0] or f"zq{names.index(q.name)}v"
+                    base_args.append(f"{q.name}={v}" if q.kind != q.POSITIONAL_ONLY else v)
+                _, omitted = ir_of(base_args)
+                line_n, explicit = ir_of(base_args + [f"{p.name}=None"])
+                if explicit[0] == "rejected":
+                    continue
+                if explicit != omitted:
+                    fails.append({"call": line_n, "problem": f"IR with {p.name}=None differs from the IR with {p.name} omitted", "got": explicit[1][:160], "omitted": omitted[1][:160]})
+            if any(p.default is None for p in params):
+                out.append({"name": f"C08/{label}/explicit-None-binds-like-omitted", "status": "discharged" if not fails else "sat", "backend": "enum",
+                            "where": f"{label}: passing None explicitly for a None-default parameter gives the IR of the omitted form, or an error", "time": round(time.time() - t0, 3),
+                            "replay": {"examples": fails[:3]}, "replay_confirmed": bool(fails)})
         # ---- (b) a literal argument behaves like the same value routed through a variable (executed on the firmware mock)
         for p in params:
             ann = str(p.annotation)
